@@ -105,7 +105,7 @@ Lemma enc_zz_inj r s : enc_zz r = enc_zz s -> r = s.
 Proof. destruct r as [[a b]|], s as [[c d]|]; cbn; congruence. Qed.
 
 Ltac models_base := unfold enc_z, enc_zz, z2key, z2key_raw, z2minkey, key2z, index_exists, hzoom_minmax, vzoom_minmax, vnum,
-  check_zoom, zorigin, zbase_offset_neg.
+  zoom_ok, check_zoom, zorigin, zbase_offset_neg.
 Ltac models_higher := unfold eid_tuple, higher, mk; cbn [eh ex ey ev ef].
 
 (* ---------------------------------------------------------------------------------------------------------------- *)
